@@ -376,6 +376,59 @@ func rawSasl(out *bufio.Writer, r *rand.Rand, thorough bool) (n int) {
 	return
 }
 
+// negotiationCut: the response to the ApiVersions request that the FIRST negotiating operation of a Conn sends
+// (loadVersions) is cut after k bytes: the operation fails with that error, nothing becomes the Conn's version map, the
+// Conn is closed and the same call again fails too.
+//
+//	c17v <topic hex> <ApiVersions body hex> <k> <A>:<ver>:0:0 <bodyA hex>\t<res1> <res2>
+func negotiationCut(out *bufio.Writer, r *rand.Rand, thorough bool) (n int) {
+	names := []string{"produce", "metadata", "joinGroup", "createTopics", "deleteTopics", "saslHandshake"}
+	if !thorough {
+		names = []string{names[r.Intn(3)], names[3+r.Intn(3)]}
+	}
+	for _, name := range names {
+		op := connfake.OpByName(name)
+		v := op.Versions[len(op.Versions)-1]
+		table := connfake.VersionTable(map[int16]int16{op.Key: v})
+		av := connfake.ApiVersionsBody(0, table)
+		w := &connfake.W{}
+		op.Build(v, w, r, &connfake.Shape{Topic: topic})
+		for _, k := range cuts(r, 8+len(av), thorough, 4) {
+			if k >= 8+len(av) {
+				continue
+			}
+			c, br := connfake.Start(topic, table)
+			c.SetDeadline(time.Now().Add(2 * time.Second))
+			br.Push(18, connfake.Resp{Body: av, Cut: k})
+			br.Push(op.Key, connfake.Resp{Body: w.B, Cut: -1})
+			res := [2]string{"hang", "hang"}
+			done := make(chan struct{})
+			go func() {
+				defer close(done)
+				for i := range res {
+					func() {
+						defer func() {
+							if p := recover(); p != nil {
+								res[i] = "panic"
+							}
+						}()
+						_, err := op.Call(c, &connfake.Shape{Topic: topic})
+						res[i] = connfake.Outcome(err)
+					}()
+				}
+			}()
+			select {
+			case <-done:
+			case <-time.After(5 * time.Second):
+			}
+			go func() { c.Close(); br.Stop() }()
+			fmt.Fprintf(out, "c17v %s %s %d %s:%d:0:0 %s\t%s %s\n", gen.Hex([]byte(topic)), gen.Hex(av), k, op.Name, v, gen.Hex(w.B), res[0], res[1])
+			n++
+		}
+	}
+	return
+}
+
 // rawSaslTransport: the same un-framed token exchange on the Transport path (protocol/saslauthenticate RawExchange, used
 // by protocol.Conn.RoundTrip after a v0 handshake): the answer [int32 len][bytes] cut after k bytes.
 //
@@ -735,6 +788,8 @@ func main() {
 	lap := func() string { d := time.Since(t0).Round(time.Millisecond); t0 = time.Now(); return d.String() }
 	nraw := rawSasl(out, r, thorough)
 	nraw += rawSaslTransport(out, r)
+	nneg := negotiationCut(out, r, thorough)
+	fmt.Fprintf(os.Stderr, "c17 driver: %d cuts of the ApiVersions response of a version negotiation\n", nneg)
 	fmt.Fprintf(os.Stderr, "c17 driver: %d stalled-broker cases (%d back long after the deadline)\n", nstall, nlate)
 	fmt.Fprintf(os.Stderr, "c17 driver: %d un-framed sasl token cases\n", nraw)
 	n2, bad2 := twoCallers(out, r, thorough)
